@@ -224,6 +224,16 @@ pub fn run(ctx: &Ctx) -> i32 {
             check_case(ctx, st, &far[i], Settings::new(0));
         });
     }
+    // prefixes x^i y^j that fold into shared trie states under repetition conversion
+    {
+        let n = if ctx.thorough { 40000 } else { 2500 };
+        par_for(&ctx.run, n, |i, st| {
+            let mut rng = Rng::new(seed, 0x164_0000 + i as u64);
+            let tcs = gen::merged_prefix_family(&mut rng, if i % 2 == 0 { &["a", "b"] } else { &["a", "b", "c"] });
+            st.count("merged_prefix_families");
+            check_case(ctx, st, &tcs, Settings::new(REP));
+        });
+    }
     let n = if ctx.thorough { 200_000 } else { 8_000 };
     let alphabets: Vec<(String, Vec<String>)> = gen::ALPHABETS.iter().map(|a| (a.to_string(), gen::alphabet(a))).collect();
     par_for(&ctx.run, n, |i, st| {
